@@ -29,11 +29,14 @@ inductive Action
   /-- `handle_operation_replacement(op, …)` inside `replace`; `users` = users of `op.results` -/
   | replaced (op : Nat) (users : List Nat)
   /-- `replace_all_uses_with(from, to)` with `from is not to`; `toNone` = (`to is None`);
-  `users` = `[use.operation for use in from.uses]` -/
+  `users` = `[use.operation for use in from.uses]`.  Also `replace_uses_with_if(from, to, pred)`:
+  `toNone = false`, `users` = the operations of the uses accepted by `pred`, one entry per accepted
+  use, in visiting order (an op using the value in two accepted slots appears twice) -/
   | rauw (toNone : Bool) (users : List Nat)
   /-- `erase(op)`; `nested` = `op.walk()` without `op`; `defs` = owners of single-use operands -/
   | erase (op : Nat) (nested : List Nat) (defs : List Nat)
-  /-- `notify_op_modified(op)` -/
+  /-- `notify_op_modified(op)`; also `replace_value_with_new_type(v, ty)` with `op` = owner of the
+  result `v` / the op owning the block of the block argument `v` -/
   | modify (op : Nat)
   /-- `insert_block_argument` / the `erase_arg` part of `erase_block_argument` -/
   | blockArg
